@@ -51,6 +51,13 @@ def _run_case(arg):
                                      wrap_around=bool(case["wrap"])).to(torch.float64)
     except Exception as ex:  # noqa: BLE001
         return ("raised", f"{type(ex).__name__}: {ex}")
+    # the call must not modify its inputs, and a repeated call must give the same answer
+    if not torch.equal(phi, (wr * q).to(dt)) or (mask_arg is not None and not torch.equal(mask_arg, m)):
+        return ("inputs-modified", "unwrap_phase_2d_torch modified its input tensors")
+    again = unwrap_phase_2d_torch(phi, method="reliability-sorting", mask=mask_arg,
+                                  wrap_around=bool(case["wrap"])).to(torch.float64)
+    if not torch.equal(again, out):
+        return ("repeat", "a second identical call returned a different result")
     if out.shape != phi.shape:
         return ("shape", str(tuple(out.shape)))
     # (a) original field up to one constant per mask component
